@@ -21,8 +21,10 @@ def handleC04 : List String → String
   | [op0, a, b] =>
     -- `prog_bin_pydiv` / `prog_aug_pyfloordiv` …: the operator as a compiled program uses it (binary or compound
     -- form) has the meaning of the wrapper
-    let op := if op0.startsWith "prog_bin_" then (op0.drop 9).toString
-              else if op0.startsWith "prog_aug_" then (op0.drop 9).toString else op0
+    -- `prog_<form>_<op>`: forms bin, aug (variables), lib / lia (right / left operand a literal), alb (compound, literal)
+    let op := if op0.startsWith "prog_" then (match op0.splitOn "_" with
+                | [_, _, o] => o
+                | _ => op0) else op0
     match op with
     | "modcore" | "modstd" | "fdivcore" | "fdivstd" | "pymod_i64" | "pyfloordiv_i64" =>
       (match parseI64 a, parseI64 b with
